@@ -1,5 +1,6 @@
 import Spydr.Names.Props.C17
 import Spydr.Names.Props.C17Export
+import Spydr.Names.Props.C17ExportExample
 #print axioms Spydr.Names.makeValid_legal
 #print axioms Spydr.Names.makeValid_fresh
 #print axioms Spydr.Names.conflictsFix_finished
@@ -24,3 +25,7 @@ import Spydr.Names.Props.C17Export
 #print axioms Spydr.Names.Bridge.view03_passNet
 #print axioms Spydr.Names.Bridge.export_readable
 #print axioms Spydr.Names.Bridge.passNet_naming_clauses
+#print axioms Spydr.Names.Bridge.export_readable_outside_pinned_classes
+#print axioms Spydr.Names.Bridge.Example3.n0_nameHyp
+#print axioms Spydr.Names.Bridge.Example3.n1_residual
+#print axioms Spydr.Names.Bridge.Example3.example_export
